@@ -22,3 +22,19 @@ Theorem C17_nonvacuous :
   arr_index IULLong (2^32 + 3) 4 1000 4 = Abort /\ arr_index ISChar (-1) 4 1000 4 = Abort /\
   arr_index IUChar 3 4 1000 8 = Ok 1024.
 Proof. vm_compute. repeat split. Qed.
+
+(* the index is an integer held in SANDBOX memory (table[hdr->idx]): whatever the sandbox writes to the cell after the one
+   read the operator makes, the element designated is inside the array; later reads are irrelevant; a variant that
+   bounds-checks the first read and addresses with a second one is refuted *)
+Theorem C17_index_in_sandbox_memory : forall k f len start elsize a,
+  k <> IBool -> in_range k (f 0%nat) = true -> 0 < elsize ->
+  arr_index_cell k f len start elsize = Ok a ->
+  start <= a /\ a + elsize <= start + len * elsize /\ a = start + f 0%nat * elsize.
+Proof. exact arr_index_cell_inside. Qed.
+Print Assumptions C17_index_in_sandbox_memory.
+Theorem C17_later_reads_irrelevant : forall k f g len start elsize,
+  f 0%nat = g 0%nat -> arr_index_cell k f len start elsize = arr_index_cell k g len start elsize.
+Proof. exact arr_index_cell_later_reads_irrelevant. Qed.
+Theorem C17_index_refetch_refuted :
+  exists f a, arr_index_cell_refetch IInt f 4 1000 4 = Ok a /\ in_range IInt (f 0%nat) = true /\ ~ (1000 <= a /\ a + 4 <= 1000 + 4 * 4).
+Proof. exact arr_index_cell_refetch_escapes. Qed.
